@@ -13,7 +13,8 @@ CONSTANTS WrapFix,     \* TRUE: a recent signer is also rejected while number < 
           Vals,        \* validator universe, a set of integers (ascending address order)
           Epoch,
           InitNumber,  \* number of the header the client is created with (a multiple of Epoch)
-          InitSet,     \* validator set of the client state and of the creation header's extra data
+          InitSet,     \* validator set of the client state the client is created with (the set in force)
+          InitAnn,     \* validator list in the creation header's extra data (what that epoch header announces: the pending set)
           InitSigner,
           MaxNumber,
           UpgradeSets  \* the validator sets an upgrade proposal may install (empty: no upgrades in this configuration)
@@ -35,7 +36,7 @@ InTurn(vs, head, v) == SeqOf(vs)[((head + 1) % Cardinality(vs)) + 1] = v
 Header == [number : 0..MaxNumber, parentOK : BOOLEAN, signer : Vals, coinbaseOK : BOOLEAN, diff : {1, 2},
            extra : {{}} \cup ((SUBSET Vals) \ {{}}), structOK : BOOLEAN]
 
-Init == /\ number = InitNumber /\ validators = InitSet /\ pending = InitSet
+Init == /\ number = InitNumber /\ validators = InitSet /\ pending = InitAnn
         /\ recents = (InitNumber :> InitSigner) /\ cons = {InitNumber}
         /\ last = [act |-> "Init", res |-> "ok"]
 
